@@ -103,7 +103,7 @@ def isfloatbits(obs, x):
     return obs == ("float", fbits(x))
 
 
-def oracle(op, args, obs):
+def oracle0(op, args, obs):
     if obs[0] == "panic":
         if op == "./" and args[0][0] == "i" and args[1] == I(0):
             return ("dot-divide-int-by-zero-panics", "a number or an error value")
@@ -149,11 +149,10 @@ def oracle(op, args, obs):
     if op == "*":
         r = a * b
         c = fl(a) * fl(b)
-        if in64(r):
-            cls = "times-float-although-product-fits-within-1024-of-2^63" if abs(r) > T1024 - 1024 and obs[0] == "float" else "other"
-            return want_int(r, cls)
-        cls = "times-wrapped-int-product-just-above-2^63" if obs == ("int", wrap(r)) and abs(r) < 2 ** 63 + 2048 else "other"
-        return want_float(c, cls)
+        if in64(r):          # documented heuristic: float as soon as the DOUBLE product exceeds 2^63 - 1024
+            return want_int(r, "times-float-although-product-fits-within-1024-of-2^63" if abs(c) > float(T1024) else "other")
+        # the double product of a product that does not fit can still round to <= 2^63 - 1024: today's test lets the wrapped int through
+        return want_float(c, "times-wrapped-int-product-just-above-2^63" if abs(c) <= float(T1024) else "other")
     if op in ("/", "//", "%") and b == 0:
         return None if obs[0] in ("float", "error") else ("zero-divisor-not-float-or-error", "float or error")
     if op == "/":
@@ -257,6 +256,79 @@ def oracle(op, args, obs):
     return ("unknown-operator", "")
 
 
+# ------------------------------------------------------------------ what today's code answers inside the known defect classes
+# A witness belongs to a known class only when the implementation gives exactly the answer the recorded defect gives;
+# any other wrong answer on the same operands is reported as class "other".
+def f2i_amd64(x):
+    if x != x or x in (math.inf, -math.inf):
+        return MIN
+    n = int(x)
+    return n if in64(n) else MIN
+
+
+def go_round(q):
+    if q != q or q in (math.inf, -math.inf):
+        return q
+    t = float(math.trunc(q))
+    return t + math.copysign(1.0, q) if abs(q - t) >= 0.5 else t
+
+
+def py_mlrmod(a, m):
+    r = abs(a) % abs(m)
+    r = -r if a < 0 else r
+    return wrap(r + m) if r < 0 else r
+
+
+def legacy_value(op, v):
+    """observation today's kernels give on int operands v, for the operators with a recorded defect; None = not modelled here"""
+    a = v[0]
+    b = v[1] if len(v) > 1 else None
+    if op == "+":
+        return ("int", 0) if (a, b) == (MIN, MIN) else None
+    if op == "-":
+        return ("int", MIN) if (a, b) == (0, MIN) else None
+    if op == "*":
+        c = fl(a) * fl(b)
+        return ("float", fbits(c)) if abs(c) > float(T1024) else ("int", wrap(a * b))
+    if op in ("/", "//") and (a, b) == (MIN, -1):
+        return ("int", MIN)
+    if op == "%" and b != 0:
+        r = abs(a) % abs(b)
+        r = -r if a < 0 else r
+        return ("int", wrap(r + b) if ((a >= 0 and b < 0) or (a < 0 and b >= 0)) else r)
+    if op in ("abs", "ceil", "floor", "round"):
+        return ("int", f2i_amd64(abs(fl(a)) if op == "abs" else fl(a)))
+    if op == "sgn":
+        return ("int", (a > 0) - (a < 0))
+    if op == "roundm":
+        x, m = fl(a), fl(b)
+        return ("int", f2i_amd64(go_round(fdiv(x, m)) * m))
+    if op in ("madd", "msub", "mmul") and v[2] != 0:
+        return ("int", py_mlrmod(wrap({"madd": a + b, "msub": a - b, "mmul": a * b}[op]), v[2]))
+    if op == "mexp" and v[2] != 0 and b >= 0:
+        if b == 0:
+            return ("int", 1)
+        if b == 1:
+            return ("int", a)
+        ap, c, u, m = a, 1, b, v[2]
+        while u:
+            if u & 1:
+                c = py_mlrmod(wrap(c * ap), m)
+            u >>= 1
+            ap = py_mlrmod(wrap(ap * ap), m)
+        return ("int", c)
+    return None
+
+
+def oracle(op, args, obs):
+    r = oracle0(op, args, obs)
+    if r is not None and r[0] in PROBES and obs[0] != "panic" and all(x[0] == "i" for x in args):
+        lv = legacy_value(op, [x[1] for x in args])
+        if lv is not None and lv != obs:
+            return ("other", r[1])
+    return r
+
+
 # ------------------------------------------------------------------ known defect classes: witness and operand footprint
 # The Coq model mirrors today's code, defects included (they are the _refuted theorems).  Each run probes the
 # implementation on the witness of every class; when a class no longer reproduces (repaired upstream or by a fix: commit)
@@ -289,8 +361,12 @@ def footprints(op, args):
     out = set()
     if op == "%" and v[1] != 0 and v[0] % v[1] == 0 and (v[0] < 0) != (v[1] < 0):
         out.add("modulus-of-exact-multiple-with-opposite-signs-returns-divisor")
-    if op == "*" and T1024 - 1024 <= abs(v[0] * v[1]) <= 2 ** 63 + 4096:
-        out |= {"times-wrapped-int-product-just-above-2^63", "times-float-although-product-fits-within-1024-of-2^63"}
+    if op == "*":
+        r, c = v[0] * v[1], fl(v[0]) * fl(v[1])
+        if in64(r) and abs(c) > float(T1024):
+            out.add("times-float-although-product-fits-within-1024-of-2^63")
+        if not in64(r) and abs(c) <= float(T1024):
+            out.add("times-wrapped-int-product-just-above-2^63")
     if op == "+" and v == [MIN, MIN]:
         out.add("plus-min-int64-plus-min-int64-gives-int-zero")
     if op == "-" and v == [0, MIN]:
@@ -566,7 +642,7 @@ def run(ctx):
     terms = [coq_case(cases[i][0], cases[i][1], obs[i]) for i in chosen]
     ctx.dist("coq_correspondence_cases", len(terms))
     with ctx.timed("coq_cases"):
-        bad, err = coq_eval_mismatches(ctx, "C07", "C06.Model C07.Model C07.Harness", "Z * list (Z * Z) * Z * Z", "chk", terms, shard=(400 if ctx.tier == "thorough" else 700))
+        bad, err = coq_eval_mismatches(ctx, "C07", "C06.Model C07.Model C07.Harness", "Z * list (Z * Z) * Z * Z", "chk", terms, shard=len(terms) // 2 + 1)      # at most two coqc processes
     ctx.cov["correspondence"] = {"cases": len(terms), "mismatches": len(bad)}
     if err:
         ctx.violation({"broken": "correspondence-evaluation", "detail": err[-2000:]}, found_input=False)
